@@ -13,6 +13,16 @@ From Coq Require Import String ZArith List Bool.
 From XV Require Import Base.Label Base.LSet Base.ODict Base.Attr Base.Outcome Model.Hypergraph.
 Import ListNotations.
 
+(* `not idx` for an id: 0, the empty string, the empty tuple and None are falsy *)
+Definition py_falsy (i : lbl) : bool :=
+  match i with
+  | LInt 0 => true
+  | LStr EmptyString => true
+  | LTup [] => true
+  | LNone => true
+  | _ => false
+  end.
+
 Inductive table := TNode | TEdge.                    (* _node / _edge (sets) ; their attribute dicts go along *)
 Inductive vexp := VArg (i : nat) | VLoop | VLoop1 | VUid | VIdx.  (* the i-th label parameter, the innermost loop variable, the enclosing one *)
 Inductive bexp :=
@@ -24,6 +34,9 @@ Inductive bexp :=
 | BIdxNone                                            (* idx is None *)
 | BIdxIn (t : table)                                  (* idx in self._T   (Python's None is the label LNone) *)
 | BIsNone (v : vexp)                                  (* v is None *)
+| BMembersEmpty                                       (* not members *)
+| BHasSimplexMembers                                  (* self.has_simplex(members): frozenset(members) in self._edge.values() *)
+| BOr (a b : bexp)
 | BNot (b : bexp) | BAnd (a b : bexp).
 Inductive stmt :=
 | SIf (c : bexp) (th el : list stmt)
@@ -46,6 +59,8 @@ Inductive stmt :=
 | SClearNet                                            (* self._net_attr.clear() *)
 | SSetMembers (t : table) (k : vexp)                  (* self._T[k] = members   /   = frozenset(members) *)
 | SAttrUpdateItem (t : table) (k : vexp)              (* self._T_attr[k].update(eattr), eattr = the item's own attribute dict *)
+| SRebindIdxFalsy (body : list stmt)                  (* idx = next(self._edge_uid) if not idx else idx ; body = the rest of the block *)
+| SCall (body : list stmt)                            (* self.<another translated method>(<the same members, idx, attr>) *)
 | SNop. (* for <loop> in <i-th bound set>[.difference({minus})]: body *)
 
 Record env := mkEnv { e_args : list lbl; e_flags : list bool; e_loop : lbl; e_attr : attrs; e_loop1 : lbl; e_locals : list (list lbl);
@@ -75,6 +90,13 @@ Fixpoint beval (b : bexp) (en : env) (s : hg) : bool + exc :=
   | BNoneInMembers => inl (existsb is_none (e_members en))
   | BIdxNone => inl (match e_idx en with None => true | Some _ => false end)
   | BIsNone v => inl (is_none (veval v en))
+  | BMembersEmpty => inl (match e_members en with [] => true | _ => false end)
+  | BHasSimplexMembers => inl (existsb (fun kv => seteqb (e_members en) (snd kv)) (h_edge s))
+  | BOr a b => match beval a en s with
+               | inl true => inl true
+               | inl false => beval b en s
+               | inr e => inr e
+               end
   | BIdxIn t => inl (has (match e_idx en with Some i => i | None => LNone end) (tab t s))
   | BNot c => match beval c en s with inl v => inl (negb v) | inr e => inr e end
   | BAnd a c => match beval a en s with
@@ -192,6 +214,18 @@ Fixpoint exec (p : stmt) (en : env) (s : hg) {struct p} : hg * outcome :=
                            | Some d => (set_atab t s (set (veval k en) (aupdate d (e_eattr en)) (atab t s)), Ok)
                            | None => (s, Raised IDNotFound)
                            end
+  | SRebindIdxFalsy body =>
+      let auto := match e_idx en with Some i => py_falsy i | None => true end in
+      let u := if auto then LInt (h_uid s) else match e_idx en with Some i => i | None => LNone end in
+      let s0 := if auto then with_uid s (h_uid s + 1)%Z else s in
+      let en' := mkEnv (e_args en) (e_flags en) (e_loop en) (e_attr en) (e_loop1 en) (e_locals en) (e_members en) (Some u) (e_uid en) (e_eattr en) in
+      (fix go (l : list stmt) (s : hg) : hg * outcome :=
+         match l with [] => (s, Ok)
+         | q :: r => match exec q en' s with (s', Ok) => go r s' | y => y end end) body s0
+  | SCall body =>
+      (fix go (l : list stmt) (s : hg) : hg * outcome :=
+         match l with [] => (s, Ok)
+         | q :: r => match exec q en s with (s', Ok) => go r s' | y => y end end) body s
   | SSetMembers t k => if is_none (veval k en) then (s, Raised XGIError)
                        else (set_tab t s (set (veval k en) (e_members en) (tab t s)), Ok)
   | SNop => (s, Ok)
@@ -206,14 +240,14 @@ Definition run_method (body : list stmt) (args : list lbl) (flags : list bool) (
   run_method_a body args flags [] s.
 
 (* methods whose body starts with guards: `if c: raise E` / `if c: warn(...); return`, then the statements *)
-Inductive guard_action := GRaise (e : exc) | GWarnReturn.
+Inductive guard_action := GRaise (e : exc) | GWarnReturn | GReturn.   (* GReturn: `if c: return` / `continue`, silently *)
 Fixpoint run_guards (gs : list (bexp * guard_action)) (en : env) (s : hg) : option res :=
   match gs with
   | [] => None
   | (c, act) :: r =>
       match beval c en s with
       | inr e => Some (s, Raised e, O)
-      | inl true => Some (match act with GRaise e => (s, Raised e, O) | GWarnReturn => (s, Ok, 1%nat) end)
+      | inl true => Some (match act with GRaise e => (s, Raised e, O) | GWarnReturn => (s, Ok, 1%nat) | GReturn => (s, Ok, O) end)
       | inl false => run_guards r en s
       end
   end.
@@ -270,3 +304,18 @@ Definition run_node_items (gs : list (bexp * guard_action)) (callee : list stmt)
 Definition run_node_attr_items (body : list stmt) (items : list (lbl * option attrs)) (a : attrs) (s : hg) : res :=
   loop (fun s it => match exec_list body (mkEnv [] [] (fst it) (match snd it with None => a | Some d => aupdate a d end) LNone [] [] None LNone []) s
                     with (s', o) => (s', o, O) end) items s.
+
+(* SimplicialComplex.add_simplex(members, idx=None, **attr): `members = frozenset(members)`, guards, the statements up to the faces,
+   then `for members_sub in set(self._subfaces(members)): <guards>; self._add_face(members_sub)` - the faces in the order in which
+   the set yields them are an input *)
+Definition run_add_simplex (gs : list (bexp * guard_action)) (head : list stmt) (fgs : list (bexp * guard_action)) (fbody : list stmt)
+           (members : list lbl) (idx : option lbl) (a : attrs) (faces : list (list lbl)) (s : hg) : res :=
+  let en := mkEnv [] [] LNone a LNone [] (mkset members) idx LNone [] in
+  match run_guards gs en s with
+  | Some r => r
+  | None =>
+      match exec_list head en s with
+      | (s1, Ok) => loop (fun s f => run_guarded fgs fbody (mkEnv [] [] LNone [] LNone [] f None LNone []) s) faces s1
+      | (s1, o) => (s1, o, O)
+      end
+  end.
